@@ -14,6 +14,10 @@ const P_GLOBALS: &str = "struct S0 { uint m; float4 v; };\nTexture2D<float4> t0;
 const P_TEMPLATES: &str = "template<typename T, typename U> T pick(T a, U b) { return a; }\nenum Q { QA, QB, QC, QD, QE, QF };\nfloat t0() { return pick<float, int>(1.0f, 2) + pick<int, float>(1, 2.0f) + pick<float, uint>(1.0f, 2u) + (float)(int)QC; }\n";
 
 const P_ERR_A: &str = "namespace A { int v; }\nnamespace B { int v; }\nvoid f() { int x = A::v + B::w; }\n";
+// diagnostics computed from the values of an enum (kept in a hash map while the enum is open): a range no type holds,
+// a repeated value name, values after a value that is out of range
+const P_ERR_ENUM: &str = "enum Range { Lowest = -5, Low = -1, Mid = 7, High = 100000, Highest = 3000000000 };\nvoid main() {}\n";
+const P_ERR_ENUM2: &str = "enum Big { A = 4294967295, B, C = -1, D = -2 };\nvoid main() {}\n";
 const P_ERR_B: &str = "struct S { int a; };\nS g; Texture2D<float4> t;\nvoid f() { float3 v = g; t.Nope(); }\n";
 
 // several buffer element types whose HLSL and Metal layouts differ: with layout validation on, which one is reported
@@ -23,7 +27,7 @@ const P_LAYOUT: &str = "struct Particle { float3 position; float life; float3 ve
 fn sources() -> Vec<(String, String)> {
     let mut v: Vec<(String, String)> = vec![
         ("names".into(), P_NAMES.into()), ("groups".into(), P_GROUPS.into()), ("globals".into(), P_GLOBALS.into()),
-        ("templates".into(), P_TEMPLATES.into()), ("err-a".into(), P_ERR_A.into()), ("err-b".into(), P_ERR_B.into()), ("layout".into(), P_LAYOUT.into()),
+        ("templates".into(), P_TEMPLATES.into()), ("err-a".into(), P_ERR_A.into()), ("err-b".into(), P_ERR_B.into()), ("layout".into(), P_LAYOUT.into()), ("err-enum".into(), P_ERR_ENUM.into()), ("err-enum2".into(), P_ERR_ENUM2.into()),
     ];
     let root = std::env::var("RSSL_REPO").unwrap_or("/repo".into());
     for dir in ["tests/basic", "hlsl/tests", "msl/tests"] {
